@@ -111,18 +111,19 @@ class ExplorerScriptSsbDecompiler:
         raw_routine_backup_ops = deepcopy(self._routine_ops)
 
         # Step 1: Build labels
+        # (kept in a local variable: convert() can be called again and then has to start from the original ops)
         resolver = OpsLabelJumpToResolver(self._routine_ops)
-        self._routine_ops = list(resolver)
+        routine_ops_with_labels = list(resolver)
         has_any_calls = any(
             any(isinstance(op, SsbLabelJump) and any(isinstance(x, CallJump) for x in op.markers) for op in rtn)
-            for rtn in self._routine_ops
+            for rtn in routine_ops_with_labels
         )
 
         # Step 2: Build and optimize execution graph
         logger.debug("Building base graph...")
         try:
             # If we have any calls, we disable the optimization that stops at ending opcodes.
-            grapher = SsbGraphMinimizer(self._routine_ops, not has_any_calls)
+            grapher = SsbGraphMinimizer(routine_ops_with_labels, not has_any_calls)
             logger.debug("Built base graph...")
             # Remove redundant labels
             grapher.optimize_paths()
